@@ -19,6 +19,12 @@ CLAIMS = {
         'note': 'Trusts clang record layouts, tools/yrx.cc, the table EXTRA_SLOTS (YR_EXTERNAL_VARIABLE.value.s) and TERMINATOR_FUNCS; records reached through a pointer are taken to be arena-resident.',
         'technique': 'static registry-completeness + value-provenance + save/restore typestate + per-buffer allocation-kind table over clang AST/CFG facts',
     },
+    'C19': {
+        'text': 'Decides, for every local (and every parameter fed by callers) that holds a raw pointer into an arena buffer - acquired from yr_arena_get_ptr/yr_arena_ref_to_ptr/_yr_compiler_get_rule_by_idx or loaded from a relocatable field - that it is never read after a call whose bottom-up may-allocate summary contains that buffer, on any path; every allocation is assumed to relocate, so the property\'s quantifier over initial capacities disappears. Also that no long-lived compile-time structure has a pointer field designating an arena record. Necessary clause of C19 (no stale reference); byte-identical images are not decided.',
+        'design_ref': 'DESIGN.md section 4, C19 (R19.1-R19.3)',
+        'note': 'Trusts the FIELD_BUFFER table (cross-checked by C08/R8.3), the may-allocate summaries (buffer ids propagated through parameters), and that compile-time arena calls act on the compiler\'s arena. Copies of a tracked pointer into struct fields are not followed.',
+        'technique': 'static buffer-aware valid->stale pointer typestate with interprocedural may-allocate summaries over clang CFG facts',
+    },
     'C12': {
         'text': 'Decides, for every constant-folding grammar action, that the folder applies the same C operator and the same operand-value guards as the VM handler of the opcode the action emits; that no compiler-layer code reads a run-time object value; that externals are looked up in the scanner-owned table; and that shortcut flags are cleared on every path that uses a string otherwise. These are necessary structural clauses of C12, decided on all sites; verdict equality itself is not decided.',
         'design_ref': 'DESIGN.md section 4, C12 (R12.1-R12.6)',
